@@ -49,6 +49,8 @@ type project struct {
 	// OwnTables: the table of every type holds objects of its own for the other types (made from the same texts)
 	// instead of the objects registered in the root: what a name means is the same everywhere, the objects differ
 	OwnTables bool `json:"own_tables,omitempty"`
+	// PartialTables: the table of every type lacks every second other type (those are found on the root only)
+	PartialTables bool `json:"partial_tables,omitempty"`
 }
 
 // fileName is the file name an object of the project is created under.
@@ -160,7 +162,7 @@ func (p project) build() (*jschema.JSchema, error) {
 		}
 	}
 	// types may refer to each other: every JSchema type gets all types too
-	for _, t := range p.Types {
+	for ti, t := range p.Types {
 		if t.Regex {
 			continue
 		}
@@ -168,7 +170,10 @@ func (p project) build() (*jschema.JSchema, error) {
 		if tt == nil {
 			continue
 		}
-		for _, u := range p.Types {
+		for ui, u := range p.Types {
+			if p.PartialTables && (ti+ui)%2 == 1 {
+				continue
+			}
 			if us, ok := s.UserTypeCollection[u.Name]; ok {
 				if p.OwnTables && u.Name != t.Name {
 					if u.Regex {
